@@ -263,6 +263,11 @@ func (o ObjSpec) runtimeObject() runtime.Object {
 		if o.MetaRV != "" {
 			acc.SetUID(types.UID("uid-" + o.MetaRV))
 			acc.SetFinalizers([]string{"example.com/f"})
+			if o.MetaGen == 2 || o.MetaGen == 7 { // owned by another object, as objects stamped out by a higher-level controller are
+				t := true
+				owner := [][3]string{{"apps/v1", "Deployment", "web"}, {"batch/v1", "CronJob", "nightly"}, {"apps/v1", "ReplicaSet", "web-5d4f"}, {"v1", "Node", "n1"}}[int(o.MetaGen+int64(len(o.MetaRV)))%4]
+				acc.SetOwnerReferences(append(acc.GetOwnerReferences(), metav1.OwnerReference{APIVersion: owner[0], Kind: owner[1], Name: owner[2], UID: types.UID("owner-" + owner[2]), Controller: &t}))
+			}
 			if o.MetaGen%2 == 1 { // being deleted, held by the finalizer
 				ts := metav1.NewTime(time.Unix(1700000000, 0))
 				grace := int64(30)
